@@ -75,6 +75,11 @@ class Taint:
                                     and self.is_tainted(n.value, f):
                                 self.attrs.add(t.attr)
                                 changed = True
+                            # self.table[key] = <request text>: the table holds request text
+                            if isinstance(t, ast.Subscript) and isinstance(t.value, ast.Attribute) and dotted(t.value.value) == "self" \
+                                    and t.value.attr not in self.attrs and self.is_tainted(n.value, f):
+                                self.attrs.add(t.value.attr)
+                                changed = True
                 for call, t in eff.calls_of(f, f.cls):
                     if t.kind not in ("repo", "ctor") or t.by_name:
                         continue
